@@ -134,6 +134,10 @@ type c16DCMI struct {
 	Entity   int  `json:"entity"`   // which of the three entities holds the records
 	Family   int  `json:"family"`   // 0 IPMI IDs, 1 DCMI IDs only, 2 neither, 3 IPMI IDs answer with an error code
 	OtherToo bool `json:"othertoo"` // the other two entities hold one record each
+	// ErrEnt: family 3 only: which standard entity answers with an error code,
+	// and ErrCode which one (0 = 0xC9)
+	ErrEnt  int `json:"errent,omitempty"`
+	ErrCode int `json:"errcode,omitempty"`
 }
 
 var ipmiEnt = []byte{0x37, 0x03, 0x07}
@@ -166,7 +170,11 @@ func c16SensorInfo(c c16DCMI) (string, string, string) {
 		}
 	}
 	if c.Family == 3 {
-		cfg.DCMISensorErr[ipmiEnt[1]] = 0xC9 // the standard processor entity answers "parameter out of range"
+		code := byte(0xC9) // "parameter out of range"
+		if c.ErrCode != 0 {
+			code = byte(c.ErrCode)
+		}
+		cfg.DCMISensorErr[ipmiEnt[c.ErrEnt%3]] = code
 	}
 	w := newWorld(cfg, nil, nil)
 	sess, err := w.Conn.NewV2Session(w.Ctx, &bmc.V2SessionOpts{SessionOpts: bmc.SessionOpts{Username: "c16", Password: cfg.Password, MaxPrivilegeLevel: ipmi.PrivilegeLevelUser}, CipherSuites: []ipmi.CipherSuite{ipmi.CipherSuite3}})
@@ -410,7 +418,7 @@ func runC16(r *rep.R) {
 					if !thorough(r) && count > 20 && count < 240 && count%16 > 1 && page != 8 && page != 1 {
 						continue
 					}
-					doD(c16DCMI{Count: count, Page: page, Entity: ent, Family: fam, OtherToo: (count+page+ent)%2 == 0})
+					doD(c16DCMI{Count: count, Page: page, Entity: ent, Family: fam, OtherToo: (count+page+ent)%2 == 0, ErrEnt: (count + page) % 3, ErrCode: []int{0xC9, 0xC1, 0xCB, 0xD4, 0xFF}[(count+ent)%5]})
 				}
 			}
 		}
